@@ -204,6 +204,9 @@ def systematic_cases() -> list[dict[str, Any]]:
 
         add([f"get_length_{ln}"], fn4, paths=("single",))
     add(["get_abort_mid_body"], lambda c, m, p: c["obj"].update(get={"abort_at": c["body"]["size"] // 2}), paths=("single",))
+    # a body delimited only by connection close, cut half way: the cut reads like the end of the body
+    add(["get_abort_mid_body", "get_length_none"], lambda c, m, p: c["obj"].update(get={"length": "none", "abort_at": c["body"]["size"] // 2}), paths=("single",))
+    add(["get_abort_mid_body", "get_length_none", "size_5000"], lambda c, m, p: (c["body"].update(size=5000), c["obj"].update(get={"length": "none", "abort_at": 2500})), paths=("single",))
     add(["get_drop_first"], lambda c, m, p: c["obj"].update(get={"drop_first": 1}), paths=("single",))
     add(["get_drop_first_fin"], lambda c, m, p: c["obj"].update(get={"drop_first": 1, "drop_mode": "fin"}), paths=("single",))
     add(["get_drop_always_fin"], lambda c, m, p: c["obj"].update(get={"drop_first": 99, "drop_mode": "fin"}), paths=("single",))
